@@ -102,7 +102,9 @@
       no pending window shrink and positive window capacity (a Snapshot peer enters this
       set by one status report, clause 3); F's log agrees with L's on [matched, a] and
       holds no entry of L's log above a (a = the exact agreement frontier; F may hold any
-      divergent tail), commit index <= a, no snapshot request pending; F's election timer is
+      divergent tail; by Raft's Log Matching property the maximal agreeing prefix of a
+      follower's log has exactly this form - Log Matching itself is a cluster invariant
+      and is not proved here), commit index <= a, no snapshot request pending; F's election timer is
       not due before the first heartbeat (or F is not promotable).  PERSISTENCE is not
       modelled and not needed: at Raft level (below RawNode) replies are queued at once and
       nothing in the exchange reads [persisted].  NO PROPOSAL arrives during the run (L's
